@@ -341,6 +341,24 @@ def check_overrides(ctx, R="C14.override"):
                 return True
         return False
 
+    # merging with an earlier record of the same object must keep the EARLIEST saved value of every property
+    for c in walk_local(fn):
+        if isinstance(c, ast.Call) and isinstance(c.func, ast.Attribute) and c.func.attr == "update" and c.args:
+            recv, arg = unparse(c.func.value), c.args[0]
+            if "self._overrides" in recv and tok in lib.names_loaded(arg):
+                ctx.finding(
+                    R,
+                    c,
+                    "undo record merged newest-first",
+                    f"DynamicScenario._override merges with `{unparse(c)}`: the values saved by the NEW override replace the ones saved earlier for the same object, so after a second "
+                    f"override of a property the scenario reverts it to the intermediate value, not to the original one",
+                )
+            elif recv == tok and "self._overrides" in unparse(arg):
+                ctx.ok(R, c, "an earlier record of the same object wins when records are merged (the original values are kept)")
+        if isinstance(c, ast.Dict) and any(k is None for k in c.keys):
+            spreads = [unparse(v) for k, v in zip(c.keys, c.values) if k is None]
+            if len(spreads) == 2 and tok in spreads[1] and "self._overrides" in spreads[0]:
+                ctx.finding(R, c, "undo record merged newest-first", f"DynamicScenario._override builds `{unparse(c)}`: the newly saved values replace the earlier ones")
     rest = fn.body[fn.body.index(tok_stmt) + 1 :] if tok_stmt in fn.body else fn.body
     if all_paths(rest):
         ctx.ok(R, fn, f"the undo record `{tok}` is stored into self._overrides on every path")
@@ -441,7 +459,81 @@ def check_requirement_rebinding(ctx, R="C14.rebind"):
         )
 
 
+# Frozen: run-time state of a scenario that needs no reset, with the reason.
+RUNSTATE_OK = {
+    "_overrides": "every entry is reverted in _stop; a stale entry only repeats a revert to the values the object already has, and merging with it keeps the original values",
+}
+RUNTIME_METHODS = ("_step", "_invokeInner", "_override", "_addDynamicRequirement", "_addMonitor", "_runMonitors")
+RESET_METHODS = ("_start", "_bindTo", "_stop")
+
+
+def check_runstate(ctx, R="C14.runstate"):
+    ctx.rule(
+        R,
+        "per-run state of a scenario is reset: the top-level DynamicScenario object is reused by every simulation of a compiled scenario, so "
+        "each attribute that the methods running during a simulation assign or mutate (_step, _invokeInner, _override, _addDynamicRequirement, "
+        "_addMonitor, _runMonitors) is (re)initialised in _start / _bindTo or cleared in _stop; otherwise the previous run's value (elapsed time, "
+        "sub-scenarios, monitors ...) is what the next run starts with",
+    )
+    model = ctx.model
+    ds = model.cls(DS, "DynamicScenario")
+    MUT = ("append", "extend", "add", "update", "pop", "remove", "clear", "insert", "setdefault")
+
+    def writes(fn):
+        out = {}
+        for n in ast.walk(fn):
+            tg = []
+            if isinstance(n, ast.Assign):
+                tg = n.targets
+            elif isinstance(n, (ast.AugAssign, ast.AnnAssign)):
+                tg = [n.target]
+            for t in tg:
+                for x in ast.walk(t):
+                    if isinstance(x, ast.Attribute) and isinstance(x.value, ast.Name) and x.value.id == "self" and isinstance(x.ctx, ast.Store):
+                        out.setdefault(x.attr, n)
+                    if isinstance(x, ast.Subscript) and isinstance(x.value, ast.Attribute) and isinstance(x.value.value, ast.Name) and x.value.value.id == "self":
+                        out.setdefault(x.value.attr, n)
+            if isinstance(n, ast.Call) and isinstance(n.func, ast.Attribute) and n.func.attr in MUT and isinstance(n.func.value, ast.Attribute) and isinstance(n.func.value.value, ast.Name) and n.func.value.value.id == "self":
+                out.setdefault(n.func.value.attr, n)
+        return out
+
+    runtime = {}
+    for mn in RUNTIME_METHODS:
+        fn = ds.methods.get(mn)
+        if fn is None:
+            continue
+        for a, node in writes(fn).items():
+            runtime.setdefault(a, (mn, node))
+    resets = set()
+    for mn in RESET_METHODS:
+        fn = ds.methods.get(mn)
+        if fn is None:
+            raise AnalysisError(f"DynamicScenario.{mn} missing")
+        # only plain (re)assignments count as a reset
+        for n in ast.walk(fn):
+            if isinstance(n, ast.Assign):
+                for t in n.targets:
+                    for x in ast.walk(t):
+                        if isinstance(x, ast.Attribute) and isinstance(x.value, ast.Name) and x.value.id == "self" and isinstance(x.ctx, ast.Store):
+                            resets.add(x.attr)
+    ctx.floor(R, len(runtime), 5, "attributes written while a simulation runs")
+    for a, (mn, node) in sorted(runtime.items()):
+        if a in resets:
+            ctx.ok(R, node, f"self.{a} (written in {mn}) is re-initialised in _start / _bindTo / _stop")
+        elif a in RUNSTATE_OK:
+            ctx.ok(R, node, f"self.{a} (written in {mn}) needs no reset: {RUNSTATE_OK[a]}")
+        else:
+            ctx.finding(
+                R,
+                node,
+                f"self.{a} is never reset between simulations",
+                f"DynamicScenario.{mn} changes self.{a} while a simulation runs, but neither _start, _bindTo nor _stop assigns it: the top-level scenario object is reused, so the next "
+                f"simulation of the same scenario starts with the previous run's {a} (e.g. a time limit already reached, or sub-scenarios of the last run still consulted at step 0)",
+            )
+
+
 def check(ctx):
+    check_runstate(ctx)
     check_globals(ctx)
     check_context_managers(ctx)
     check_cleanup(ctx)
